@@ -64,6 +64,12 @@ pub struct ThreadSt {
     /// set when the thread's most recent operation was a load of this atomic that returned this
     /// value: a repeated load is a busy wait and stays disabled until the value changes
     pub last_load: Option<(Obj, usize)>,
+    /// the thread's most recent operation was a timed receive on this channel that timed out while
+    /// the channel had seen this many sends and had this many senders: asking again is a polling
+    /// loop and stays disabled until one of the two changes (a wait made visible)
+    pub last_timeout: Option<(Obj, usize, usize)>,
+    /// the thread was let through a timed receive and has not reported its outcome yet
+    pub in_timed_recv: bool,
     /// the thread was let through a repeated load once since the last change of shared state
     pub probed: bool,
     /// the parent has passed the spawn point of this thread (always true under an uncontrolled parent)
@@ -160,6 +166,12 @@ impl St {
                 Event::Recv { obj } => self.mirror.chans.get(&obj).map(|c| c.len > 0 || c.senders == 0).unwrap_or(true),
                 // non-blocking attempts never wait
                 Event::TrySend { .. } | Event::TryRecv { .. } => true,
+                // the timer of a timed receive may fire at any moment; a thread that comes straight
+                // back after a timeout waits for the channel to change
+                Event::RecvTimeout { obj } => match th.last_timeout {
+                    Some((o, sent, senders)) if o == obj => self.mirror.chans.get(&obj).map(|c| c.sent != sent || c.senders != senders).unwrap_or(true),
+                    _ => true,
+                },
                 _ => true,
             },
         }
@@ -169,7 +181,7 @@ impl St {
         let mut h = DefaultHasher::new();
         self.mirror.hash(&mut h);
         for t in &self.threads {
-            (t.parked, t.exited, t.last_load, t.probed, t.spawned).hash(&mut h);
+            (t.parked, t.exited, t.last_load, t.last_timeout, t.probed, t.spawned).hash(&mut h);
         }
         // which thread ran last matters for the default continuation only, not for the futures
         extra.hash(&mut h);
@@ -234,10 +246,16 @@ impl St {
                 c.senders = c.senders.saturating_sub(1);
             }
             Event::TryRecvd { obj, some } => {
+                let c = self.mirror.chans.entry(obj).or_default();
                 if some {
-                    let c = self.mirror.chans.entry(obj).or_default();
                     c.len = c.len.saturating_sub(1);
                     c.received += 1;
+                }
+                let snapshot = (obj, c.sent, c.senders);
+                if let Some(t) = tid {
+                    if t < self.threads.len() && std::mem::take(&mut self.threads[t].in_timed_recv) && !some {
+                        self.threads[t].last_timeout = Some(snapshot);
+                    }
                 }
             }
             Event::ReceiverDropped { obj } => {
@@ -268,6 +286,12 @@ impl St {
                 }
             }
             Parked::Ev(Event::Load { .. }) => {}
+            Parked::Ev(Event::RecvTimeout { .. }) => {
+                self.threads[t].last_load = None;
+                self.threads[t].last_timeout = None;
+                self.threads[t].in_timed_recv = true;
+                return;
+            }
             Parked::Spawn(id) => {
                 self.threads[t].last_load = None;
                 if id < self.threads.len() {
@@ -276,6 +300,7 @@ impl St {
             }
             _ => self.threads[t].last_load = None,
         }
+        self.threads[t].last_timeout = None;
     }
 }
 
@@ -330,7 +355,7 @@ impl Ctl {
                 st.done = true;
             } else {
                 let blocked = st.parked_list();
-                let spinning = blocked.iter().any(|(_, p)| matches!(p, Parked::Ev(Event::Load { .. })));
+                let spinning = blocked.iter().any(|(_, p)| matches!(p, Parked::Ev(Event::Load { .. }) | Parked::Ev(Event::RecvTimeout { .. })));
                 st.halt = Some(Halt::Stuck { blocked, spinning });
             }
             self.cv.notify_all();
@@ -441,7 +466,7 @@ impl Controller for Ctl {
             }
             None => {
                 st.anomalies.push(format!("unexpected thread {kind:?} #{index} registered"));
-                st.threads.push(ThreadSt { kind, index, registered: true, parked: None, exited: false, last_load: None, probed: false, spawned: true });
+                st.threads.push(ThreadSt { kind, index, registered: true, parked: None, exited: false, last_load: None, last_timeout: None, in_timed_recv: false, probed: false, spawned: true });
                 st.threads.len() - 1
             }
         }
@@ -505,9 +530,9 @@ impl<R> Exec<R> {
 /// Runs one execution of `body` (logical thread 0 when `consumer_controlled`) under a fresh
 /// controller. `body` gets the controller for its harness-only scheduling points.
 pub fn run<R: Send + 'static>(cfg: Config, body: impl FnOnce(Arc<Ctl>) -> R + Send + 'static) -> Exec<R> {
-    let mut threads = vec![ThreadSt { kind: ThreadKind::Consumer, index: 0, registered: true, parked: None, exited: !cfg.consumer_controlled, last_load: None, probed: false, spawned: true }];
+    let mut threads = vec![ThreadSt { kind: ThreadKind::Consumer, index: 0, registered: true, parked: None, exited: !cfg.consumer_controlled, last_load: None, last_timeout: None, in_timed_recv: false, probed: false, spawned: true }];
     for (kind, index) in &cfg.threads {
-        threads.push(ThreadSt { kind: *kind, index: *index, registered: false, parked: None, exited: false, last_load: None, probed: false, spawned: !cfg.consumer_controlled });
+        threads.push(ThreadSt { kind: *kind, index: *index, registered: false, parked: None, exited: false, last_load: None, last_timeout: None, in_timed_recv: false, probed: false, spawned: !cfg.consumer_controlled });
     }
     let ctl = Arc::new(Ctl {
         st: Mutex::new(St {
